@@ -365,6 +365,16 @@ class SelectedMailbox:
         """Marks the selected mailbox as having been deleted."""
         self._is_deleted = True
 
+    def discard_command(self) -> None:
+        """Forget what a command that was then refused had announced about
+        itself: that it cannot report expunged messages and which flag
+        updates it wanted silenced.
+
+        """
+        self._hide_expunged = False
+        self._silenced_flags.clear()
+        self._silenced_sflags.clear()
+
     def silence(self, seq_set: SequenceSet, flag_set: Set[Flag],
                 flag_op: FlagOp) -> None:
         """Runs the flags update against the cached flags, to prevent untagged
